@@ -10,6 +10,7 @@ namespace NsyncVerif.CvFix
 def Loc.holds : Loc → Bool
   | .wEnq | .wRel | .wChk2 | .wCmp | .wRmLd | .wRmCas | .wClr | .wRel2 | .sRcLd | .sRcCas | .sRel
   | .nLocked | .nEnqRel | .nDeqSt | .nDeqRel | .nDeqRelW => true
+  | .dWalk | .dRc => true          -- emit_cv_state / emit_waiters (debug.c) with `acquired = 1`
   | _ => false
 
 /-- Program points at which the thread may have a non-empty private `to_wake_list`. -/
